@@ -223,7 +223,7 @@ def concretise(rng, s, letter):
 def gen(rng, tier):
     quick = tier == "quick"
     plans = []    # (kind, sizes, ops)  ops may contain (13, L)
-    nrand = 700 if quick else 20000
+    nrand = 1500 if quick else 20000
     for _ in range(nrand):
         s0 = rand_laf_sizes(rng, rand_len(rng))
         s = s0
@@ -281,7 +281,7 @@ def gen(rng, tier):
 def fidelity(rng, quick, pool):
     """outside the property's hypotheses: garbage fields, zero length, no field, out-of-range arguments"""
     out = []
-    n = 300 if quick else 6000
+    n = 500 if quick else 6000
     for i in range(n):
         c = rng.random()
         p = bytearray(rng.choice(pool))
